@@ -3,6 +3,7 @@ package main
 import (
 	"fmt"
 	"math"
+	"runtime"
 	"strings"
 	"time"
 
@@ -480,6 +481,18 @@ func generate(e *vh.Env) {
 				emitCn(e, c, id, cls)
 			}
 		}
+		if want("held") {
+			// hold results, then re-check: the whole batch is rendered before any kept string is looked at again
+			nb := 5 + e.Rnd.Intn(6)
+			var ids []int64
+			for len(ids) < nb {
+				id, _ := genID(e, c)
+				if id >= 0 || (id>>c.shift())+c.epoch >= zoneFrom {
+					ids = append(ids, id)
+				}
+			}
+			heldBatch(e, c, ids, fmt.Sprintf("batch-of-%d", nb))
+		}
 		if want("from") {
 			for i := 0; i < nFrom; i++ {
 				s, cls := genString(e, c)
@@ -498,6 +511,21 @@ func generate(e *vh.Env) {
 				emitBetween(e, c, b, en, genProbes(e, c, b, en), cls)
 			}
 		}
+	}
+	// pure functions in parallel: every observation must be the function's value under every schedule
+	if want("par") {
+		rounds, iters := e.Scale(3, 12), e.Scale(150000, 400000)
+		var total, differing int64
+		for r := 0; r < rounds; r++ {
+			c := cfgs[e.Rnd.Intn(len(cfgs))]
+			if r == 0 {
+				c = cfgT{defEpoch, 10, false}
+			}
+			t, d := parRound(e, c, e.Rnd.Int63(), iters, fmt.Sprintf("%d-goroutines", parG))
+			total, differing = total+t, differing+d
+		}
+		e.Meta["parallel"] = map[string]interface{}{"rounds": rounds, "goroutines": parG, "iterations_each": iters,
+			"conversions": total, "differing_observations": differing, "gomaxprocs": runtime.GOMAXPROCS(0)}
 	}
 	// the zone assumption, sampled on Go's tzdata: constant +8 h from 1991-09-16 on
 	if want("zone") {
